@@ -176,3 +176,21 @@ class RecordingRNG:
     @property
     def n_calls(self):
         return len(self.calls)
+
+
+def install_rng(env, rng, seed=0):
+    """make `rng` the generator of a GridWorld: through the module-level `make_rng` that `set_seed` uses when the
+    code still has it (so that set_seed itself runs), otherwise by replacing the generator set_seed installed"""
+    from gym_gridverse.envs import gridworld as gridworld_mod
+
+    orig = getattr(gridworld_mod, 'make_rng', None)
+    if orig is not None:
+        gridworld_mod.make_rng = lambda s=None: rng
+        try:
+            env.set_seed(seed)
+        finally:
+            gridworld_mod.make_rng = orig
+    else:
+        env.set_seed(seed)
+    if getattr(env, '_rng', None) is not rng:
+        env._rng = rng
